@@ -474,6 +474,41 @@ func Run(c *gen.Ctx) error {
 		if err != nil {
 			return err
 		}
+		// a nested key with a @requires into another sub-field of the same object (outside the Entities model, judged
+		// directly): the required sub-field must be populated from the same representation as the key
+		{
+			const q = `query($reps: [_Any!]!) { _entities(representations: $reps) { ... on Review { echo author { id reputation } } } }`
+			reps := []any{map[string]any{"__typename": "Review", "author": map[string]any{"id": "u1", "reputation": json.Number("11")}},
+				map[string]any{"__typename": "User", "id": "1"},
+				map[string]any{"__typename": "Review", "author": map[string]any{"id": "u2", "reputation": json.Number("12")}}}
+			nres, err := xeng.RunAll(b.b.Bin, []xeng.Case{{ID: 1, Query: q, Variables: map[string]any{"reps": reps}, Oracle: xeng.NewOracle()}})
+			if err != nil {
+				return err
+			}
+			var got struct {
+				Data struct {
+					Entities []struct {
+						Author *struct {
+							Reputation *int `json:"reputation"`
+						} `json:"author"`
+					} `json:"_entities"`
+				} `json:"data"`
+			}
+			raw := ""
+			if len(nres[0].Responses) > 0 {
+				raw = string(nres[0].Responses[0])
+				_ = json.Unmarshal(nres[0].Responses[0], &got)
+			}
+			ok := len(got.Data.Entities) == 3
+			for i, want := range map[int]int{0: 11, 2: 12} {
+				ok = ok && got.Data.Entities[i].Author != nil && got.Data.Entities[i].Author.Reputation != nil && *got.Data.Entities[i].Author.Reputation == want
+			}
+			if !ok {
+				meta.Direct = append(meta.Direct, gen.DirectFinding{Signature: "nested-requires-not-populated-from-its-representation",
+					What:   fmt.Sprintf("config %s: Review has @key(fields: \"author { id }\") and body @requires(fields: \"author { reputation }\"); representations with author.reputation 11 and 12 at indices 0 and 2 were answered %s (create errors %s)", b.cfg.Name, raw, string(nres[0].CreateErrors)),
+					Replay: map[string]any{"config": b.cfg.Name, "query": q, "representations": reps}})
+			}
+		}
 		// several _entities requests at the same time on one executable schema: each must be answered as it is alone
 		{
 			var batch []xeng.Case
